@@ -22,6 +22,7 @@ func checkC07(c *Ctx, r *Report) {
 	c07R3(c, r)
 	tokenLoopsEndAtEOF(c, r, "C07.R2.token-loops-end")
 	tokenClassesRefused(c, r, "C07.R3.token-classes-refused")
+	borrow(c, r, c06GenerateEscape, "C06.R5.generate-escape", "C07.R2.generate-escape-cleared", 3, "every branch of generateReader.ReadByte taken on the escape flag clears the flag before it returns", nil, "with the flag left set at the end of the template the reader hands out backslashes for ever: Next never returns and the token buffer grows without bound (a zone of a few octets exhausts memory)")
 	c07R4(c, r)
 	c07R5(c, r)
 	c07RdataLexErr(c, r)
